@@ -474,6 +474,16 @@ def check_ls(ctx: Ctx, case, lines_out=None) -> bool:
             lines_out.append((case, rec, "cert", f"c10.lscert {m} {n} {wl(Af[k])} {wl(bf[k])} {wl(xf[k])}"))
             if default_cfg and r > 0:
                 lines_out.append((case, rec, "ref", f"c10.lsref {m} {r} {n} {wl(Bi)} {wl(Ci)} {wl(bf[k])}"))
+            if name.startswith("PINV") and m * n > 0:
+                # the kernel unfolded one level: torch's SVD is the contract parameter, the tolerance defaulting
+                # (`pinvCutoff`) and V S^+ U^T b are the Lean model's (`pinvForwardSvd`, theorem pinv_svd_forward_minnorm)
+                Us, Ss, Vhs = torch.linalg.svd(Af[k], full_matrices=False)
+                at_, rt_ = getattr(sol, "atol", None), getattr(sol, "rtol", None)
+                rec["svd_s"] = Ss
+                lines_out.append((case, rec, "svd",
+                                  f"c10.pinvsvd {m} {n} {Ss.numel()} {0 if at_ is None else 1} {to_wire(float(at_ or 0.0))} "
+                                  f"{0 if rt_ is None else 1} {to_wire(float(rt_ or 0.0))} {to_wire(eps)} {wl(Af[k])} {wl(Us)} {wl(Ss)} "
+                                  f"{wl(Vhs.mT)} {wl(bf[k])}"))
             if name.startswith("PINV"):
                 lines_out.append((case, rec, "matvec", f"c10.matvec {n} {m} {wl(Kf[k])} {wl(bf[k])}"))
                 if default_cfg:
@@ -551,6 +561,32 @@ def judge_ls(ctx: Ctx, case, rec, what, rep):
         if g > tol + 1e-300:
             ctx.fail(cc, f"ls-certificate: {name} result is not a least-squares solution: |A^T(Ax-b)| = {g:.3e} > {tol:.3e} "
                          f"({m}x{n}, rank {r}, cond {kap:.1e}, {dtype})" + sfx(case))
+    elif what == "svd":
+        v = nums(rep)
+        cut, xm, (cu, cv, ca) = v[0], torch.tensor(v[1:1 + n], dtype=torch.float64), v[1 + n:]
+        sv = rec["svd_s"]
+        s1_ = float(sv[0])
+        # contract of the SVD kernel (hypotheses of the theorem), re-measured
+        if max(cu, cv) > 1e-10 or ca > 1e-10 * (s1_ + 1e-300):
+            raise common.InfraError(f"torch.linalg.svd violates its contract: |U^TU-1|={cu:.1e} |V^TV-1|={cv:.1e} |A-USV^T|={ca:.1e}")
+        # ambiguous only when a singular value is within rounding distance of the cut-off
+        band = max((1e-9 if dtype == "float64" else 2e-4) * cut, 2 * eps * s1_)
+        if any(abs(float(t) - cut) <= band and not (float(t) == 0.0 and cut == 0.0) for t in sv):
+            ctx.count("ls.svd.ambiguous")
+            return
+        kept = [float(t) for t in sv if float(t) > cut]
+        srk = min(kept) if kept else 0.0
+        kk = (s1_ / srk) if kept else 1.0
+        bn_ = float(rec["b"].norm())
+        tol = 64 * eps * dim * kk * (float(xm.norm()) + (bn_ / srk if kept else 0.0))
+        d = float((rec["x"] - xm).norm())
+        ctx.count("ls.svd")
+        stat("ls.svd." + dtype, d / (tol + 1e-300))
+        if d > tol + 1e-300:
+            ctx.fail(cc, f"ls-svd: {name} differs from V S^+ U^T b with the documented cut-off max(atol, rtol*s1) = {cut:.3e} "
+                         f"(atol {getattr(make_solver(name), 'atol', None)}, rtol {getattr(make_solver(name), 'rtol', None)}) by {d:.3e} > {tol:.3e} "
+                         f"({m}x{n}, kept {len(kept)} of {len(sv)} singular values, {dtype})" + sfx(case))
+            ctx.disagree("ls.svd", cc, f"|x - x_model| = {d:.3e} > {tol:.3e}")
     elif what == "tcert":
         g, res, xn, bn, an = nums(rep)
         scale = s1 * (s1 * xn + bn)
@@ -1352,11 +1388,14 @@ def check_sparse_malformed(ctx: Ctx, case) -> bool:
     a, b = DA.to_sparse_bsr((dm, dn1)), DB.to_sparse_bsc((dn2, dp))
     fn = O().bsr_bsc_matmul if case["api"] == "bsr_bsc_matmul" else O()._sparse_csr_mm
     ctx.count(f"sparse.malformed.{case['malformed']}")
+    case["_guard"] = f"c10.bsrguard {DA.shape[0]} {n1} {n2} {DB.shape[1]} {dm} {dn1} {dn2} {dp}"
     try:
         y = fn(a, b)
     except BaseException:
         ctx.count("sparse.malformed.raises")
+        case["_outcome"] = "raises"
         return True
+    case["_outcome"] = "returns"
     yd = valid_dense(y)
     if case["malformed"] == "blk" and yd is not None and torch.equal(yd.double(), DA.double() @ DB.double()):
         ctx.count("sparse.malformed.correct")
@@ -1604,6 +1643,38 @@ def corner_cases():
         {**sp(seed=9012), "malformed": "blk", "dn2": 1}, {**sp(seed=9013), "malformed": "dim"},
     ]
     return C
+
+
+def check_cg_entry(ctx: Ctx):
+    """shape glue of CG.forward against the model's `cgEntry`: which ranks of b are accepted, and whether b is unsqueezed"""
+    g = gen(777)
+    n = 3
+    Q = torch.randn(n, n, generator=g, dtype=torch.float64)
+    A = Q @ Q.T + torch.eye(n, dtype=torch.float64)
+    bs = {0: torch.tensor(1.5, dtype=torch.float64), 1: torch.randn(n, generator=g, dtype=torch.float64),
+          2: torch.randn(n, 1, generator=g, dtype=torch.float64), 3: torch.randn(n, 1, 1, generator=g, dtype=torch.float64)}
+    reps = ctx.driver.run([f"c10.cgentry 2 {k}" for k in sorted(bs)])
+    for k, rep in zip(sorted(bs), reps):
+        case = {"kind": "cg-entry", "ndimB": k}
+        ctx.note_case(("cg-entry", k), True)
+        st, toks = common.parse_reply(rep)
+        try:
+            x = S().CG()(A, bs[k].clone())
+            out = "ok"
+        except AssertionError:
+            out = "assert"
+        except Exception as e:
+            out = "other:" + type(e).__name__
+        ctx.count(f"cg.entry.{k}.{out}")
+        if st == "ok":
+            if out != "ok":
+                ctx.fail(case, f"cg-raises: CG rejected a right-hand side of rank {k} for a rank-2 A ({out}); the shape rule accepts it")
+                ctx.disagree("cg.entry", case, f"model accepts, implementation {out}")
+            elif not isinstance(x, torch.Tensor) or tuple(x.shape) != (n, 1) or \
+                    float((A @ x - bs[k].reshape(n, 1)).norm()) > 1e-4 * float(bs[k].norm()):
+                ctx.fail(case, f"shape: CG with a rank-{k} right-hand side returned {getattr(x, 'shape', None)} / a wrong solution")
+        elif out == "ok":
+            ctx.disagree("cg.entry", case, f"model rejects rank {k} ({rep}), implementation returned")
 
 
 def check_empty_batch(ctx: Ctx):
@@ -2333,6 +2404,11 @@ def run_sparse(ctx: Ctx, cases):
         if case.get("malformed"):
             check_sparse_malformed(ctx, case)
             ctx.note_case(("sparse.malformed", case["api"], case["malformed"], case.get("dn2"), case["da"], case["db"]), True)
+            if "_guard" in case:      # the model's argument checks (bsrBscGuard) decide accept / reject the same way
+                rep = ctx.driver.run([case.pop("_guard")])[0]
+                oc = case.pop("_outcome", None)
+                if (common.parse_reply(rep)[0] == "ok") != (oc == "returns"):
+                    ctx.disagree("sparse.guard", pub(case), f"model guard says {rep}, implementation {oc}")
             continue
         guarded(ctx, case, check_sparse, lines)
         PA, PB, _, _ = sparse_build(case)
@@ -2370,6 +2446,7 @@ def run(ctx: Ctx):
     # deterministic corner corpus first (identical for every seed), then the random streams
     check_empty_batch(ctx)
     check_duck(ctx)
+    check_cg_entry(ctx)
     run_chol_cases(ctx, C["chol"])
     run_ls(ctx, C["ls"])
     run_cg(ctx, C["cg"])
@@ -2438,6 +2515,8 @@ def replay(ctx: Ctx, case) -> bool:
         check_empty_batch(ctx)
     elif kind == "duck":
         check_duck(ctx)
+    elif kind == "cg-entry":
+        check_cg_entry(ctx)
     elif kind == "import":
         try:
             O()
